@@ -39,7 +39,8 @@ def strategy(tier):
         ks = None if big else draw(st.lists(st.floats(0, 0.999), min_size=4, max_size=10))
         # counter 'w': fragments only mutate the context in place (no name is ever rebound)
         return {'spec': spec, 'ops': ops, 'ks': ks,
-                'counter': draw(st.sampled_from(['v', 'v', 'w']))}
+                'counter': draw(st.sampled_from(['v', 'v', 'w'])),
+                'shadow': draw(st.booleans())}
     return cases()
 
 
@@ -56,8 +57,10 @@ def cond_table(spec):
     return tab
 
 
-def run(spec, ops, fail_at):
-    """returns (records, raised) ; stops at the first ContractError"""
+def run(spec, ops, fail_at, shadow=False):
+    """returns (records, raised) ; stops at the first ContractError.  With shadow=True a second
+    interpreter over the same Statechart object (its own context, all conditions true) is stepped
+    in between; it must not influence the first one."""
     from sismic.exceptions import ContractError
     box = {'n': 0}
 
@@ -67,8 +70,19 @@ def run(spec, ops, fail_at):
         return box['n'] != fail_at
     d = Drive(spec, ignore_contract=False, ctx_extra={'chk': chk})
     box['log'] = d.ctx['log']
+    sh = None
+    if shadow:
+        sh = Drive(spec, sc=d.sc, ignore_contract=False, ctx_extra={'chk': lambda cid, old: True})
     recs = []
-    for op in ops:
+    ntr = len(spec['transitions'])
+    for k, op in enumerate(ops):
+        if sh is not None:
+            try:
+                if k % 3 == 0:
+                    sh.queue('e%d' % (k % 2), uid='sh%d' % k)
+                sh.step([True] * ntr)
+            except Exception:
+                pass
         if op[0] == 'q':
             d.queue(op[1], delay=op[2], mode=op[3], uid=op[4])
         elif op[0] == 'adv':
@@ -240,7 +254,9 @@ def oracle(case):
     tree = Tree(spec)
     tab = cond_table(spec)
     labels, keys, viol = {}, [], []
-    recs, raised, d = run(spec, case['ops'], fail_at=0)
+    recs, raised, d = run(spec, case['ops'], fail_at=0, shadow=case.get('shadow', False))
+    if case.get('shadow'):
+        labels['runs with a shadow interpreter on the same statechart'] = 1
     if raised is not None:
         viol.append({'prop': PROP, 'kind': 'raised-without-fault', 'step': len(recs) - 1,
                      'detail': {'exc': raised['exc'], 'msg': str(raised['exc_obj'])[:300]}})
@@ -263,7 +279,7 @@ def oracle(case):
         step_i, j, n_in_step, cid, n = evals[k - 1]
         assert n == k
         owner_kind, owner, ckind, code = tab[cid]
-        recs2, raised2, d2 = run(spec, case['ops'], fail_at=k)
+        recs2, raised2, d2 = run(spec, case['ops'], fail_at=k, shadow=case.get('shadow', False))
         labels['faults injected'] = labels.get('faults injected', 0) + 1
         labels['fault on %s %s' % (owner_kind, ckind)] = labels.get(
             'fault on %s %s' % (owner_kind, ckind), 0) + 1
